@@ -282,11 +282,13 @@ def case_arith(col, p):
     shape = tuple(n + 1 for n in ns)
     opname, okind, self_folded, refl = p['op'], p['operand'], p['self_folded'], p['reflected']
     base = (2.0 + (np.arange(int(np.prod(shape))) * 3 % 7).reshape(shape)) / 2.0
+    base.flat[3] = 0.0            # an empty, unmasked bin: arithmetic must not mask it (nor anything else the operands did not mask)
     other_d = (1.0 + (np.arange(int(np.prod(shape))) * 5 % 3).reshape(shape))
     m1 = np.zeros(shape, bool); m1.flat[1] = True
     m2 = np.zeros(shape, bool); m2.flat[2] = True
     ids = ['L%d' % i for i in range(len(ns))]
-    a = dadi.Spectrum(base.copy(), mask=m1.copy(), mask_corners=False, pop_ids=ids)
+    self_labelled = p.get('self_labelled', True)
+    a = dadi.Spectrum(base.copy(), mask=m1.copy(), mask_corners=False, pop_ids=ids if self_labelled else None)
     if self_folded:
         a = a.fold()
     a_data0, a_mask0 = np.asarray(a.data).copy(), np.ma.getmaskarray(a).copy()
@@ -335,8 +337,10 @@ def case_arith(col, p):
         return
     if res.folded != self_folded:
         col.violation('C09:arith:folded_flag', p, {'got': res.folded, 'expected': self_folded})
-    if res.pop_ids != ids:
-        col.violation('C09:arith:labels', p, {'got': res.pop_ids})
+    # binary operators adopt the other operand's labels when this one has none; in-place operators keep this spectrum's own (absent) labels
+    exp_ids = ids if (self_labelled or (okind in ('unfolded', 'folded') and not inplace)) else None
+    if res.pop_ids != exp_ids:
+        col.violation('C09:arith:labels', p, {'got': res.pop_ids, 'expected': exp_ids})
     exm = a_mask0 | bmask if bmask is not None else a_mask0
     gm = np.ma.getmaskarray(res)
     if not np.array_equal(gm, exm):
@@ -350,7 +354,7 @@ def case_arith(col, p):
         col.violation('C09:arith:data', p, {'got': gd, 'exp': exd})
     if not inplace and not (np.array_equal(np.asarray(a.data), a_data0) and np.array_equal(np.ma.getmaskarray(a), a_mask0)):
         col.violation('C09:arith:operand_modified', p, '')
-    col.distinct('nontrivial', ('arith', opname, okind, self_folded, refl))
+    col.distinct('nontrivial', ('arith', opname, okind, self_folded, refl, self_labelled))
 
 
 def case_slice_ll(col, p):
@@ -397,9 +401,18 @@ def case_slice_ll(col, p):
     from math import lgamma, log
     fm = model.fold()
     free = [idx for idx in np.ndindex(*shape) if not np.ma.getmaskarray(data)[idx]]
-    for extra in free[:3]:
+    total_n = sum(ns)
+    ambiguous = [idx for idx in free if 2 * sum(idx) == total_n]       # entries whose mirror is also kept (shared half and half)
+    for extra in (free[:3] + [idx for idx in ambiguous if idx not in free[:3]]):
         d2 = data.copy()
         d2.mask[extra] = True
+        # automatic folding of the model == folding it by hand, for the scaling and the multinomial likelihood too
+        for fname in ('optimal_sfs_scaling', 'll_multinom'):
+            fn_ = getattr(dadi.Inference, fname)
+            va, vb = float(fn_(model, d2)), float(fn_(fm, d2))
+            col.tick(transitions=2)
+            if not abs(va - vb) <= 1e-12 * max(1.0, abs(vb)):
+                col.violation('C09:%s:autofold' % fname, dict(p, extra_masked=extra), {'auto': va, 'explicit': vb})
         per = dadi.Inference.ll_per_bin(model, d2)
         col.tick(transitions=2)
         exm = np.ma.getmaskarray(fm) | np.ma.getmaskarray(d2)
@@ -459,7 +472,13 @@ def run(ctx):
                         if refl and okind == 'masked':
                             continue   # plain masked_array on the left: numpy decides, not dadi
                         cases.append({'kind': 'arith', 'ns': ns, 'op': op, 'operand': okind, 'self_folded': self_folded, 'reflected': refl})
+                        if okind in ('unfolded', 'folded', 'scalar'):
+                            # this spectrum without labels, the other operand (if a spectrum) with: the labels must survive either order
+                            cases.append({'kind': 'arith', 'ns': ns, 'op': op, 'operand': okind, 'self_folded': self_folded, 'reflected': refl,
+                                          'self_labelled': False})
         cases.append({'kind': 'slice_ll', 'ns': ns})
+    for ns in [(2, 2), (2, 4), (3, 3)] + ([(2, 2, 2)] if not ctx.quick else []):
+        cases.append({'kind': 'slice_ll', 'ns': ns})        # even pooled sample size: folding has ambiguous (self-paired) entries
     from mc.evidence import Collector
     a, b = Collector(), Collector()
     _dispatch(a, cases[5]); _dispatch(b, cases[5])
